@@ -82,7 +82,7 @@ def run(tier, rep):
         plans = [('A', AB.A, 3), ('A_EXPR', AB.A_EXPR, 4),
                  ('A_STMT', AB.A_STMT, 4)]
     else:
-        plans = [('A', AB.A, 4), ('A32', AB.A32, 5), ('A_EXPR', AB.A_EXPR, 5),
+        plans = [('A', AB.A, 4), ('A_EXPR', AB.A_EXPR, 5),
                  ('A_STMT', AB.A_STMT, 5)]
     m = Merge()
     for name, alpha, depth in plans:
@@ -111,7 +111,9 @@ def run(tier, rep):
     except ImportError:
         G = None
     if G is not None:
-        progs = G.programs(2 if tier == 'quick' else 3)
+        progs = G.programs(2)
+        if tier != 'quick':
+            progs = progs + [l for l in G.chain_programs(3, G.CORE_FORMS)]
 
         def work2(items, idx):
             acc = Acc()
@@ -124,9 +126,16 @@ def run(tier, rep):
             m.add(acc)
         rep.add(states=len(progs), transitions=len(progs))
         rep.space('S2', programs=len(progs))
-        base = G.programs(1) if tier == 'quick' else G.programs(2)[::7]
-        alpha = AB.A if tier == 'quick' else AB.A32
+        if tier == 'quick':
+            base, alpha = G.programs(1), AB.A
+        else:
+            base = G.programs(1) + G.chain_programs(2, G.CORE_FORMS)
+            alpha = ['a', '1', '/', '+', '++', '=', '(', ')', '{', '}', ';',
+                     ',', 'in', 'function', 'var', ':']
         muts = list(G.mutants(base, alpha))
+        if tier != 'quick':
+            muts += list(G.mutants(G.programs(1), AB.A))
+            muts = sorted(set(muts))
 
         def work3(items, idx):
             acc = Acc()
